@@ -41,18 +41,19 @@ func extend(id, note string, patterns []string, run func(p *core.Prog, r *core.R
 
 // Finalize wires the extensions into their properties (called once from main).
 func Finalize() {
-	for id, exts := range extensions {
-		p := registry[id]
-		if p == nil {
-			continue
-		}
+	for id, p := range registry {
+		exts := extensions[id]
 		base := p.Run
-		exts := exts
+		id := id
 		p.Run = func(pr *core.Prog, r *core.Report, tier string) {
 			base(pr, r, tier)
 			for _, e := range exts {
 				e(pr, r, tier)
 			}
+			propagatePass(id, pr, r)
+		}
+		if propagateProps[id] {
+			p.Explanation += " Additionally: " + propagateNote
 		}
 		for _, n := range extNotes[id] {
 			p.Explanation += " Additionally: " + n
